@@ -25,19 +25,43 @@ def cases(ctx):
                            psi_prob=0.5)
     out += dc.random_cases(rng, n // 2, 8, (0, 1), inners=("sq",), pens=(0, 1), psi_prob=0.2)
     out += ndim_cases(rng, n // 4, 5, RECT2, ("sq", "eu"), pens=(0, 1), psi_prob=0.3)
+    # narrow windows on longer series: the shifted rows of the compact layout (regions C and D) are walked by the
+    # C back-tracking only when 2*(window + max(0, l1-l2)) < l1 + 1
+    for _ in range(4 * n):
+        l1 = rng.randint(4, 9)
+        l2 = rng.randint(max(2, l1 - 2), min(10, l1 + 3))
+        w = rng.choice([1, 2, 2, 3])
+        vals = rng.choice([(0, 1), (0, 1, 2), (0, 1, 3, 5)])
+        a = [[rng.choice(vals)] for _ in range(l1)]
+        b = [[rng.choice(vals)] for _ in range(l2)]
+        out.append(dc.base_case(a, b, inner=rng.choice(["sq", "sq", "eu"]), w=w, pen=rng.choice([0, 0, 0, 1])))
     return dc.with_ids(out, "c05-")
 
 
 RULE = ("cases: window x penalty x psi x inner distance x ndim slices plus seeded cases up to length 8-10; per case the "
         "paths of best_path on Python and C matrices (default and internal representation with penalty), best_path2, "
         "warping_path, warping_path_fast, best_path_compact, dtw_ndim.warping_path, warp, and a ctypes call of "
-        "dtw_warping_path_ndim with index arrays of exactly l1+l2; TLC judges each path (range, steps, band, "
+        "dtw_warping_path_ndim with index arrays of exactly l1+l2; and paths traced from custom start cells "
+        "(dtw.best_path(row, col) and C dtw_best_path_customstart on the compact matrix) which must be optimal "
+        "partial paths ending in that cell; TLC judges each path (range, steps, band, "
         "max_step, psi-relaxed start/end, cost = optimum) and the reported distance; non-trivial as in C01")
 
 
 def run(ctx):
-    return run_records_family(ctx, cases(ctx), "run_c05", "path",
-                              mc_cfgs=QUICK_MC if ctx.quick else QUICK_MC + THOROUGH_MC, rule=RULE)
+    import copy
+    from harness import build, core
+    from harness.dtwfamily import act_m
+    from harness.wpsfamily import judge_pass
+    ctx.rule = RULE
+    src = build.py_build()
+    act_m(ctx, QUICK_MC if ctx.quick else QUICK_MC + THOROUGH_MC)
+    cs = cases(ctx)
+    judge_pass(ctx, src, cs, "run_c05", "path")
+    # custom start cells: no psi at the end (the start cell is given), otherwise the same case space
+    sub = [copy.deepcopy(c) for c in cs if c["psi"][1] == 0 and c["psi"][3] == 0 and c["md"] == 0 and c["ms"] == 0]
+    sub = sub[:: 2 if ctx.quick else 1]
+    judge_pass(ctx, src, sub, "run_c05_custom", "pathto")
+    return core.finish(ctx)
 
 
 def replay(ctx, path):
